@@ -7,7 +7,7 @@ import (
 )
 
 const (
-	MinReduceMinAttributes = 1
+	MinReduceMinAttributes = 0
 	MaxReduceMinAttributes = 2
 )
 
@@ -28,7 +28,7 @@ func newReduceMin() ops.Operator {
 // Init initializes the reduceMin operator.
 func (r *ReduceMin) Init(n *onnx.NodeProto) error {
 	attributes := n.GetAttribute()
-	if len(attributes) == 0 || len(attributes) > MaxReduceMinAttributes {
+	if len(attributes) > MaxReduceMinAttributes {
 		return ops.ErrInvalidOptionalAttributeCount(MinReduceMinAttributes, MaxReduceMinAttributes, len(attributes), r)
 	}
 
